@@ -164,7 +164,7 @@ package candidates
 //@   let cand = candObj(c, pubkey)
 //@   let n = old(len(cand.updates))
 //@   requires c != nil && c.bus != nil && value != nil && bipValue != nil
-//@   requires target: cand != nil
+//@   requires [C07] target: cand != nil
 //@   ensures pending: len(cand.updates) == n + 1 && cand.updates[n] != nil && cand.updates[n].Owner == address && cand.updates[n].Coin == coin && cand.updates[n].Value != nil && cand.updates[n].Value.val == old(value.val)
 //@   ensures kept: forall i int :: 0 <= i && i < n ==> cand.updates[i] == old(cand.updates[i])
 //@   ensures reported: ledgerDelta(c.bus.checker, coin) == old(ledgerDelta(c.bus.checker, coin)) + old(value.val)
@@ -216,3 +216,10 @@ package candidates
 //@ # from Export); the discipline is not established by the code, see DESIGN.md section 9
 //@ func (*Candidates).deleteCandaditeFromList #lockpre
 //@   requires wheld(c.lock)
+//@ # ASSUMED view: the public key registered (now or formerly) under a candidate id; the lazily loading lookup touches the
+//@ # module's caches only
+//@ ghost pubKeyOfID(c *Candidates, id uint32) types.Pubkey
+//@ func (*Candidates).PubKey
+//@   trusted
+//@   ensures result == pubKeyOfID(c, id)
+//@   modifies candCache
